@@ -3,10 +3,10 @@ CONSTANTS NAcc = 1
           NSlot = 1
           MaxVal = 2
           MaxDiffs = {1, 2}
-          HistLimits = {0, 2, 3}
+          HistLimits = {0, 2}
           Policies = {"any"}
           Asyncs = {TRUE}
-          MaxId = 4
+          MaxId = 3
 INVARIANTS TypeOK ViewIsRoot Aligned HistChain PersistedIsCanon RecoverableSound
 PROPERTIES RecoverRestores RecoverFailKeeps
 CONSTRAINT Bounded
